@@ -118,6 +118,12 @@ class Negotiated:
         )
 
         self.local_as = self.sent_open.asn
+        # The My Autonomous System field of an OPEN only holds two bytes: a 4-byte local AS
+        # is sent there as AS_TRANS and the real value travels in the capability (RFC 6793 4.1).
+        # The session's local AS is the real one, whatever the peer supports.
+        sent_asn4 = sent_capa.get(Capability.CODE.FOUR_BYTES_ASN, None)
+        if isinstance(sent_asn4, ASN):
+            self.local_as = sent_asn4
         self.peer_as = self.received_open.asn
         if self.received_open.asn == AS_TRANS and self.asn4:
             asn4_capa = recv_capa.get(Capability.CODE.FOUR_BYTES_ASN, None)
